@@ -1,5 +1,5 @@
 """C09 - SAN output is standard; SAN input resolves only to the legal move it describes."""
-from . import sanrules, outcomerules, textrules
+from . import sanrules, outcomerules, textrules, attackrules
 
 
 def run(ctx):
@@ -25,6 +25,13 @@ def run(ctx):
         "S5 the '#' mark is `is_check && !has_legal_moves` on the position after the move, and has_legal_moves runs every emitter of the full "
         "generator except castling (a position whose only reply comes from a dropped emitter would be printed as mate) (= C07/O3 re-run)",
     ]
+    ctx.decided += [
+        "S1p/S1c the filter behind the searcher-fed SAN forms (piece moves, abbreviated pawn captures) is LegalFilter with the default "
+        "prechecker: its shortcut is never taken by an en passant capture, and the exact test examines the king after the move (= C01/N2, N4 "
+        "re-run) - these forms are not validated again afterwards",
+    ]
+    attackrules.prechecker_rule(ctx, facts, "S1p")
+    attackrules.checker_rule(ctx, facts, "S1c")
     outcomerules.has_legal_moves_rule(ctx, facts, "S5")
     ctx.decided += [
         "S6 the text level: the model of Display for san::Move, evaluated on castling, pawn moves and captures (promotions on the last ranks), "
